@@ -189,7 +189,7 @@ def smt_pickles(ctx: Ctx, n: int):
     for i in range(n):
         lit = "".join(rng.choice(LITERAL_PARTS) for _ in range(rng.randint(0, 5)))
         sv = z3.StringVal(lit)
-        ctxkind = rng.choice(["eq", "prefix", "concat", "inre", "and"])
+        ctxkind = rng.choice(["eq", "prefix", "concat", "inre", "and", "z3-forall", "z3-exists"])
         if ctxkind == "eq":
             f = SMTFormula(z3_eq(v.to_smt(), sv), v)
         elif ctxkind == "prefix":
@@ -198,6 +198,11 @@ def smt_pickles(ctx: Ctx, n: int):
             f = SMTFormula(z3_eq(z3.Concat(v.to_smt(), sv), w.to_smt()), v, w)
         elif ctxkind == "inre":
             f = SMTFormula(z3.InRe(v.to_smt(), z3.Concat(z3.Re(sv), z3.Star(z3.Re(z3.StringVal("x"))))), v)
+        elif ctxkind in ("z3-forall", "z3-exists"):
+            # literals below a Z3 quantifier (as built by the evaluator's quantifier elimination)
+            x = z3.String("x")
+            body = z3.Or(z3_eq(x, sv), z3.PrefixOf(sv, v.to_smt()))
+            f = SMTFormula((z3.ForAll if ctxkind == "z3-forall" else z3.Exists)([x], body), v)
         else:
             f = SMTFormula(z3.And(z3_eq(v.to_smt(), sv), z3.Length(w.to_smt()) > z3.IntVal(len(lit))), v, w)
         ctx.evaluations += 1
@@ -209,7 +214,9 @@ def smt_pickles(ctx: Ctx, n: int):
         except Exception as e:  # noqa
             ctx.violation(f"smt-pickle-raises:{type(e).__name__}", f"pickling an SMT formula with literal {lit!r} raised {type(e).__name__}", replay)
             continue
-        if not (f2 == f) or f2.formula.sexpr() != f.formula.sexpr():
+        quantified = ctxkind.startswith("z3-")
+        # (Z3 gives a re-parsed quantifier a new identity, so `==` is not meaningful below quantifiers: compare the text)
+        if (not quantified and not (f2 == f)) or f2.formula.sexpr() != f.formula.sexpr():
             ctx.violation(
                 "smt-pickle-changed:" + ("quote" if '"' in lit else "backslash" if "\\" in lit else "non-ascii" if not lit.isascii() else "plain"),
                 f"SMT formula changed by pickling: {f.formula.sexpr()} -> {f2.formula.sexpr()}",
@@ -236,6 +243,88 @@ def cli_json(ctx: Ctx, cases):
             ctx.violation("cli-json-roundtrip", "the CLI's JSON tree output does not read back as the same tree", {"tree": t, "back": T.from_isla(back)})
 
 
+FREE_TEXT = {
+    "<start>": ["<text>"],
+    "<text>": ["<char><text>", "<char>"],
+    "<char>": [c for c in ' !"#$%&()*+,-./0123456789:;=?@ABCDEFGHIJKLMNOPQRSTUVWXYZ[]^_abcdefghijklmnopqrstuvwxyz{|}~' + "\\'" + "<>\n"],
+}
+
+
+def cli_pipe(ctx: Ctx, n: int):
+    """`isla parse` prints a JSON tree; fed back to `isla parse` / `isla check` it must be read as that tree —
+    also when the JSON text itself is a word of the grammar (free-text languages, JSON-like languages)"""
+    import io
+    import tempfile
+    from isla import cli
+    from isla.language import unparse_grammar
+
+    import signal
+
+    class Budget(Exception):
+        pass
+
+    def on_alarm(signum, frame):
+        raise Budget()
+
+    def run_cli(argv):
+        out, err = io.StringIO(), io.StringIO()
+        old = signal.signal(signal.SIGALRM, on_alarm)
+        signal.alarm(40)
+        try:
+            cli.main(*argv, stdout=out, stderr=err)
+            code = 0
+        except Budget:
+            code = "no-answer-within-40s"
+        except SystemExit as e:
+            code = e.code if isinstance(e.code, int) else (0 if e.code is None else 1)
+        except BaseException as e:  # noqa
+            code = ("exception", type(e).__name__)
+        finally:
+            signal.alarm(0)
+            signal.signal(signal.SIGALRM, old)
+        return code, out.getvalue(), err.getvalue()
+
+    rng = ctx.rng
+    with tempfile.TemporaryDirectory(prefix="c17cli_") as d:
+        gfile = os.path.join(d, "g.bnf")
+        with open(gfile, "w") as f:
+            f.write(unparse_grammar(FREE_TEXT))
+        for i in range(n):
+            word = "".join(rng.choice("ab c{}[]\":,01") for _ in range(rng.randint(1, 2)))
+            ctx.evaluations += 1
+            ctx.count("cli_pipe", "free-text")
+            code1, out1, err1 = run_cli(["parse", gfile, "-c", "true", "-i", word])
+            replay = {"grammar": "free text over printable ASCII", "word": word}
+            if code1 != 0:
+                ctx.count("cli_pipe", f"parse-exit-{code1}")
+                continue
+            try:
+                tree1 = json.loads(out1)
+            except Exception:  # noqa
+                ctx.violation("cli-pipe:parse-output-not-json", f"isla parse printed no JSON tree for {word!r}", dict(replay, out=out1[:300]))
+                continue
+            ifile = os.path.join(d, f"in{i}.json")
+            with open(ifile, "w") as f:
+                f.write(out1)
+            code2, out2, err2 = run_cli(["parse", "-c", "true", gfile, ifile])
+            if code2 == "no-answer-within-40s":
+                ctx.count("cli_pipe", "re-read: no answer within 40 s (no verdict)")
+                continue
+            if code2 != 0:
+                ctx.violation("cli-pipe:json-tree-rejected", f"isla parse rejected the JSON tree it printed for {word!r} (exit {code2})", dict(replay, err=err2[:300]))
+                continue
+            try:
+                tree2 = json.loads(out2)
+            except Exception:  # noqa
+                tree2 = None
+            if tree2 != tree1:
+                ctx.violation(
+                    "cli-pipe:json-tree-reread-differently",
+                    f"the JSON tree printed by isla parse for {word!r} is read back as a different tree (the JSON text taken as a word of the grammar?)",
+                    dict(replay, first=out1[:300], second=out2[:300]),
+                )
+
+
 def run(ctx: Ctx):
     ok = ctx.proof_side()
     if not os.path.exists(os.path.join(ROOT, "lean", ".lake", "build", "bin", "isladrv")):
@@ -259,6 +348,7 @@ def run(ctx: Ctx):
             ctx.sample({"tree": T.tree_str(t), "nodes": T.size(t)})
     smt_pickles(ctx, 300 if quick else 6000)
     cli_json(ctx, cases[: 60 if quick else 1000])
+    cli_pipe(ctx, 25 if quick else 400)
     ctx.obligation("correspondence: to_json / pickle == model codec; live object unchanged; all ops succeed", not ctx.violations)
     if not ok and not ctx.violations:
         ctx.violation("proof-obligation-broken", "a proof obligation of C17 no longer checks", {"broken": [n for n, o, _ in ctx.obligations if not o]}, found_input=False)
